@@ -781,9 +781,12 @@ class KBU:
     state per location: 'U' untouched since entry, 'K' killed.  join(U, K) = U.
     A use while 'U' is a violation."""
 
-    def __init__(self, eff):
+    def __init__(self, eff, writes_only=False):
         self.eff = eff
         self.memo = {}
+        # writes_only: only appending to / modifying the location while 'U' is a violation (reads are
+        # not: used where a returned reference may or may not alias the buffer)
+        self.writes_only = writes_only
 
     def summary(self, iid, loc):
         """(violations_from_U, exit_state_from_U) for callee instance iid wrt. callee-relative loc.
@@ -811,6 +814,8 @@ class KBU:
             st = IN[b]
             for ev in a.block_events(b):
                 if ev['kind'] in ('read', 'write'):
+                    if ev['kind'] == 'read' and self.writes_only:
+                        continue
                     if any(covers(l, loc) for l in ev['locs']):
                         exact_fresh = ev['kind'] == 'write' and ev.get('exact') and ev.get('fresh') and \
                             all(under(loc, l) for l in ev['locs'])
@@ -864,7 +869,7 @@ class KBU:
                         hits_k = any(under(loc, l) for l in ce['kills'])
                         hits_t = any(covers(l, loc) for l in ce['takes'])
                         hits_w = any(covers(l, loc) for l in ce.get('direct_writes', ce['writes']))
-                        hits_r = any(covers(l, loc) for l in ce.get('direct_reads', ce['reads']))
+                        hits_r = any(covers(l, loc) for l in ce.get('direct_reads', ce['reads'])) and not self.writes_only
                         # closures the extern function may run: apply their own kill-before-use summary
                         for v in ce.get('via', []):
                             vdef = eff.facts.inst[v]['def']
